@@ -90,6 +90,17 @@ Theorem C05_pwb_no_wrap : forall macs l, bytes l -> pwb_decode macs Checked l = 
 Proof. exact pwb_no_wrap_lemma. Qed.
 Print Assumptions C05_pwb_no_wrap.
 
+(* the MAC table regenerated from detector/src/padwing.rs (PADWING_BOARDS) is well formed: the decoder's
+   6-byte comparison can match every entry *)
+Theorem C05_boards_current : Forall (fun mac => length mac = 6%nat /\ bytes mac) pwb_macs.
+Proof.
+  apply Forall_forall. intros mac H.
+  assert (G : forallb (fun mac => Nat.eqb (length mac) 6 && bytesb mac) pwb_macs = true) by (vm_compute; reflexivity).
+  rewrite forallb_forall in G. specialize (G mac H). apply andb_true_iff in G. destruct G as [G1 G2].
+  split; [apply Nat.eqb_eq; exact G1|apply bytesb_spec; exact G2].
+Qed.
+Print Assumptions C05_boards_current.
+
 (* non-vacuity: two channels (pad 1 = readout index 4, FPN 1 = readout index 16), 3 samples each (odd: padded) *)
 Definition c05_example : list N :=
   [2;65;0;0; 236;40;255;135;84;2; 1;0; 1;2;3;4;5;6; 0;0; 10;0; 3;0;
@@ -107,3 +118,19 @@ Example C05_nonvacuous_decode :
   | _ => false
   end = true.
 Proof. vm_compute. reflexivity. Qed.
+
+(* the field predicate is satisfiable: the decoded fields of the example, by C05_pwb_exact *)
+Definition c05_example_fields : pwb :=
+  {| p_chip := 0; p_trig := 0; p_mac := [236; 40; 255; 135; 84; 2]; p_delay := 1; p_ts := 6618611909121;
+     p_last := 10; p_req := 3; p_sent := [Pad 1; Fpn 1]; p_over := [Pad 1]; p_counter := 7; p_fifo := 9;
+     p_wdepth := 1; p_rdepth := 2;
+     p_data := [4; 3; 1; -1; -32768; 0; 16; 3; 5; 6; 7; 0; -13108; -13108]%Z |}.
+Example C05_fields_ok_satisfiable :
+  pwb_fields_ok pwb_macs c05_example_fields /\ pwb_encode c05_example_fields = c05_example /\
+  pwb_waves c05_example_fields = [[1; -1; -32768]; [5; 6; 7]]%Z.
+Proof.
+  assert (Hb : bytes c05_example) by (apply bytesb_spec; vm_compute; reflexivity).
+  assert (E : pwb_decode pwb_macs Checked c05_example = Ok c05_example_fields) by (vm_compute; reflexivity).
+  destruct (proj1 (C05_pwb_exact pwb_macs Checked _ _ Hb) E) as [A B].
+  split; [exact A|]. split; [symmetry; exact B|]. vm_compute. reflexivity.
+Qed.
